@@ -4,7 +4,7 @@
     Statements only; proofs are [exact] of lemmas in Proofs/. *)
 From Coq Require Import List Arith Bool Permutation Floats Reals.
 From ET Require Import Model.Scalar Model.Sparse Proofs.SparseBase Proofs.MergeProofs Proofs.VectorProofs
-  Proofs.RInst Proofs.F64Lemmas.
+  Proofs.RInst Proofs.F64Lemmas Generated.KbnGen Proofs.KbnGenProofs.
 Import ListNotations.
 
 (** (G) Sum: equal dimensions give a well-formed result (strictly increasing,
@@ -102,6 +102,19 @@ Theorem C09_subvec_dense_f64 :
     forall i, feqP (den (vents r) i) (den (vents v1) i - den (vents v2) i)%float.
 Proof. exact subvec_dense_f64. Qed.
 Print Assumptions C09_subvec_dense_f64.
+
+(** (source tie, G) the compensated-summation kernel is the one in the source:
+    [Generated/KbnGen.v] is translated from KBNSummer.Add / KBNSummer.Sum of
+    pkg/sparse/util.go on every run (harness/translate.go); step, read-out and the
+    sum of a whole list coincide with the model's for every scalar instance. *)
+Theorem C09_kbn_source_is_the_model :
+  kbn_translated = true /\
+  (forall (S : ScalarOps) (k : kbn S) (v : S),
+     gen_kbn_add (ksum k) (kcomp k) v = (ksum (kbn_add k v), kcomp (kbn_add k v))) /\
+  (forall (S : ScalarOps) (k : kbn S), gen_kbn_sum (ksum k) (kcomp k) = kbn_sum k) /\
+  (forall (S : ScalarOps) (l : list S), gen_kbn_total l = kbn_total l).
+Proof. exact (conj kbn_translated_ok (conj gen_kbn_add_is_model (conj gen_kbn_sum_is_model gen_kbn_total_is_model))). Qed.
+Print Assumptions C09_kbn_source_is_the_model.
 
 (** (R) Over the reals the compensated sum is the sum, and every operation is
     the dense operation. *)
